@@ -388,78 +388,92 @@ impl<'a> Socket<'a> {
         let ip_protocol = self.ip_protocol;
         let ip_version = self.ip_version;
         let _checksum_caps = &cx.checksum_caps();
-        let res = self.tx_buffer.dequeue_with(|&mut (), buffer| {
-            match IpVersion::of_packet(buffer) {
-                #[cfg(feature = "proto-ipv4")]
-                Ok(IpVersion::Ipv4) => {
-                    let mut packet = match Ipv4Packet::new_checked(buffer) {
-                        Ok(x) => x,
-                        Err(_) => {
-                            net_trace!("raw: malformed ipv6 packet in queue, dropping.");
+        // A queued packet that cannot be sent (malformed, wrong protocol or version) is
+        // dropped without anything being emitted. Go on with the next one in that case:
+        // returning would leave the socket asking for an immediate poll after a poll that
+        // transmitted nothing.
+        let mut emit = Some(emit);
+        loop {
+            let res = self.tx_buffer.dequeue_with(|&mut (), buffer| {
+                match IpVersion::of_packet(buffer) {
+                    #[cfg(feature = "proto-ipv4")]
+                    Ok(IpVersion::Ipv4) => {
+                        let mut packet = match Ipv4Packet::new_checked(buffer) {
+                            Ok(x) => x,
+                            Err(_) => {
+                                net_trace!("raw: malformed ipv6 packet in queue, dropping.");
+                                return Ok(());
+                            }
+                        };
+                        if ip_protocol
+                            .is_some_and(|next_header| next_header != packet.next_header())
+                        {
+                            net_trace!("raw: sent packet with wrong ip protocol, dropping.");
                             return Ok(());
                         }
-                    };
-                    if ip_protocol.is_some_and(|next_header| next_header != packet.next_header()) {
-                        net_trace!("raw: sent packet with wrong ip protocol, dropping.");
+                        if _checksum_caps.ipv4.tx() {
+                            packet.fill_checksum();
+                        } else {
+                            // make sure we get a consistently zeroed checksum,
+                            // since implementations might rely on it
+                            packet.set_checksum(0);
+                        }
+
+                        let packet = Ipv4Packet::new_unchecked(&*packet.into_inner());
+                        let ipv4_repr = match Ipv4Repr::parse(&packet, _checksum_caps) {
+                            Ok(x) => x,
+                            Err(_) => {
+                                net_trace!("raw: malformed ipv4 packet in queue, dropping.");
+                                return Ok(());
+                            }
+                        };
+                        net_trace!("raw:{:?}:{:?}: sending", ip_version, ip_protocol);
+                        (emit.take().unwrap())(cx, (IpRepr::Ipv4(ipv4_repr), packet.payload()))
+                    }
+                    #[cfg(feature = "proto-ipv6")]
+                    Ok(IpVersion::Ipv6) => {
+                        let packet = match Ipv6Packet::new_checked(buffer) {
+                            Ok(x) => x,
+                            Err(_) => {
+                                net_trace!("raw: malformed ipv6 packet in queue, dropping.");
+                                return Ok(());
+                            }
+                        };
+                        if ip_protocol
+                            .is_some_and(|next_header| next_header != packet.next_header())
+                        {
+                            net_trace!("raw: sent ipv6 packet with wrong ip protocol, dropping.");
+                            return Ok(());
+                        }
+                        let packet = Ipv6Packet::new_unchecked(&*packet.into_inner());
+                        let ipv6_repr = match Ipv6Repr::parse(&packet) {
+                            Ok(x) => x,
+                            Err(_) => {
+                                net_trace!("raw: malformed ipv6 packet in queue, dropping.");
+                                return Ok(());
+                            }
+                        };
+
+                        net_trace!("raw:{:?}:{:?}: sending", ip_version, ip_protocol);
+                        (emit.take().unwrap())(cx, (IpRepr::Ipv6(ipv6_repr), packet.payload()))
+                    }
+                    Err(_) => {
+                        net_trace!("raw: sent packet with invalid IP version, dropping.");
+                        Ok(())
+                    }
+                }
+            });
+            match res {
+                Err(Empty) => return Ok(()),
+                Ok(Err(e)) => return Err(e),
+                Ok(Ok(())) => {
+                    #[cfg(feature = "async")]
+                    self.tx_waker.wake();
+                    // NOTE: `emit` is taken exactly when a packet was handed on.
+                    if emit.is_none() {
                         return Ok(());
                     }
-                    if _checksum_caps.ipv4.tx() {
-                        packet.fill_checksum();
-                    } else {
-                        // make sure we get a consistently zeroed checksum,
-                        // since implementations might rely on it
-                        packet.set_checksum(0);
-                    }
-
-                    let packet = Ipv4Packet::new_unchecked(&*packet.into_inner());
-                    let ipv4_repr = match Ipv4Repr::parse(&packet, _checksum_caps) {
-                        Ok(x) => x,
-                        Err(_) => {
-                            net_trace!("raw: malformed ipv4 packet in queue, dropping.");
-                            return Ok(());
-                        }
-                    };
-                    net_trace!("raw:{:?}:{:?}: sending", ip_version, ip_protocol);
-                    emit(cx, (IpRepr::Ipv4(ipv4_repr), packet.payload()))
                 }
-                #[cfg(feature = "proto-ipv6")]
-                Ok(IpVersion::Ipv6) => {
-                    let packet = match Ipv6Packet::new_checked(buffer) {
-                        Ok(x) => x,
-                        Err(_) => {
-                            net_trace!("raw: malformed ipv6 packet in queue, dropping.");
-                            return Ok(());
-                        }
-                    };
-                    if ip_protocol.is_some_and(|next_header| next_header != packet.next_header()) {
-                        net_trace!("raw: sent ipv6 packet with wrong ip protocol, dropping.");
-                        return Ok(());
-                    }
-                    let packet = Ipv6Packet::new_unchecked(&*packet.into_inner());
-                    let ipv6_repr = match Ipv6Repr::parse(&packet) {
-                        Ok(x) => x,
-                        Err(_) => {
-                            net_trace!("raw: malformed ipv6 packet in queue, dropping.");
-                            return Ok(());
-                        }
-                    };
-
-                    net_trace!("raw:{:?}:{:?}: sending", ip_version, ip_protocol);
-                    emit(cx, (IpRepr::Ipv6(ipv6_repr), packet.payload()))
-                }
-                Err(_) => {
-                    net_trace!("raw: sent packet with invalid IP version, dropping.");
-                    Ok(())
-                }
-            }
-        });
-        match res {
-            Err(Empty) => Ok(()),
-            Ok(Err(e)) => Err(e),
-            Ok(Ok(())) => {
-                #[cfg(feature = "async")]
-                self.tx_waker.wake();
-                Ok(())
             }
         }
     }
